@@ -26,7 +26,7 @@ RULE = (
 )
 ASSUMPTIONS = [
     "capstone, mcasm/LLVM (as encoders of single instructions) and gtirb are trusted; the token table is validated against capstone only",
-    "module binary type is EXEC: the x86 ELF PIE inference of a PLT attribute on branches to proxies is not exercised",
+    "module binary type is EXEC except in the `pie` vocabulary runs (x86 ELF, binary type DYN), where a direct branch/call to the proxy-backed symbol without an explicit variant is expected to carry PLT",
     "MIPS32 has no return instruction: `jr $t9` is the indirect jump, there is no `ret` token; MIPS control transfers are written "
     "without `.set noreorder`, the delay-slot nop LLVM adds is modelled as an ordinary instruction following the transfer",
     "statement is silent, model follows the documented Assembler conventions: (a) a block that ends without a control transfer falls "
@@ -52,7 +52,7 @@ V_FULL = [
     "jmp:A", "jmp:.Lb", "jmp:mcode", "jmp:ext", "jmp:mdata",
     "jcc:A", "jcc:.Lb", "jcc:ext",
     "call:A", "call:.Lb", "call:ext", "call:ext@PLT",
-    "ret", "ijmp", "icall",
+    "ret", "ijmp", "icall", "icallgot:ext", "osymgot:mdata",
     "lab:A", "lab:.Lb",
     "byte", "word:ext", "word:A", "word:.Lb+4", "string", "zero", "align", "uleb:mcode-mdata", "ulebconst",
     "sec:.data", "sec:.text",
@@ -65,10 +65,17 @@ V_MID = [
     "byte", "word:A", "string", "align", "uleb:mcode-mdata", "sec:.data", "cfi:off", "icall",
 ]
 V_SMALL = ["ord", "jmp:.Lb", "jcc:.Lb", "call:ext", "ret", "ijmp", "lab:.Lb", "byte", "string", "align", "sec:.data"]
-VOCABS = {"full": V_FULL, "mid": V_MID, "small": V_SMALL}
+# position-independent x86 ELF modules (binary type DYN): direct branches and calls to an external (proxy-backed) symbol
+# without a relocation variant of their own are given the PLT attribute; an explicit variant is kept as written
+V_PIE = [
+    "ord", "call:ext", "call:ext@PLT", "jmp:ext", "jcc:ext", "call:mcode", "jmp:mcode", "call:A", "jcc:A", "lab:A",
+    "icallgot:ext", "ijmpgot:ext", "osymgot:ext", "icallgot:mcode", "osymgot:mdata", "osym:A", "word:ext", "ret", "byte",
+]
+VOCABS = {"full": V_FULL, "mid": V_MID, "small": V_SMALL, "pie": V_PIE}
 # CFI procedures: explicit .cfi_startproc/.cfi_endproc with the full vocabulary, the
 # implicit procedure (what RewritingContext uses) with the reduced ones
-IMPLICIT = {"full": False, "mid": True, "small": True}
+IMPLICIT = {"full": False, "mid": True, "small": True, "pie": True}
+PIE_LENGTHS = {"quick": (1, 2), "thorough": (1, 2, 3)}
 
 PRIMARY = ("x64att", "ELF")
 CONFIGS = [(d, f) for d in ("x64att", "x64intel", "ia32", "arm64", "mips32") for f in ("ELF", "PE")]
@@ -491,6 +498,7 @@ def check_reuse(module, mod_syms, dialect, fmt, tu, implicit, specs1, specs2):
 
 
 def compare(res, exp, toks, dialect, module, mod_syms):
+    pie = "DYN" in module.aux_data["binaryType"].data and module.file_format == gtirb.Module.FileFormat.ELF and dialect in ("x64att", "x64intel", "ia32")
     diffs = []
     cs = T.cs_for(dialect)
     exp_secs = {s["name"]: s for s in exp["sections"]}
@@ -672,8 +680,11 @@ def compare(res, exp, toks, dialect, module, mod_syms):
                     diffs.append(D("symexpr", r_what="symbol", r_token=tk, offset=off, got=e.symbol.name, expected=so.target))
                 if e.offset != so.addend:
                     diffs.append(D("symexpr", r_what="addend", r_token=tk, offset=off, got=e.offset, expected=so.addend))
-                if sorted(a.name for a in e.attributes) != sorted(so.attrs):
-                    diffs.append(D("symexpr", r_what="attributes", r_token=tk, offset=off, got=sorted(a.name for a in e.attributes), expected=sorted(so.attrs)))
+                want_attrs = sorted(so.attrs)
+                if pie and tk in ("jmp", "jcc", "call") and so.target == T.MOD_EXT and not so.attrs:
+                    want_attrs = ["PLT"]
+                if sorted(a.name for a in e.attributes) != want_attrs:
+                    diffs.append(D("symexpr", r_what="attributes", r_token=tk, r_pie=pie, offset=off, got=sorted(a.name for a in e.attributes), expected=want_attrs))
             if sec.symbolic_expression_sizes.get(off) != so.size:
                 diffs.append(D("symexpr", r_what="size", r_token=tk, offset=off, got=sec.symbolic_expression_sizes.get(off), expected=so.size))
         if set(sec.symbolic_expression_sizes) != set(want):
@@ -741,6 +752,14 @@ def tasks(tier):
         # the same Assembler object for two texts of one token each
         for tu in (False, True):
             out.append({"d": dialect, "f": fmt, "tu": tu, "v": "full", "L": 1, "prefix": [], "reuse": True})
+        if fmt == "ELF" and dialect in ("x64att", "x64intel", "ia32"):
+            for L in PIE_LENGTHS[tier]:
+                for tu in (False, True):
+                    if L <= 2:
+                        out.append({"d": dialect, "f": fmt, "tu": tu, "v": "pie", "L": L, "prefix": [], "pie": True})
+                    else:
+                        for i in range(len(vocab_for(dialect, fmt, "pie"))):
+                            out.append({"d": dialect, "f": fmt, "tu": tu, "v": "pie", "L": L, "prefix": [i], "pie": True})
     # big tasks first so the pool drains evenly
     out.sort(key=lambda t: -(len(VOCABS[t["v"]]) ** (t["L"] - len(t["prefix"]))))
     return out
@@ -756,7 +775,7 @@ def run_task(task):
     T.validated(dialect)
     voc = vocab_for(dialect, fmt, vname)
     implicit = IMPLICIT[vname]
-    module, mod_syms = T.make_module(dialect, fmt)
+    module, mod_syms = T.make_module(dialect, fmt, binary_type=("DYN",) if task.get("pie") else ("EXEC",))
     if task.get("reuse"):
         for s1 in voc:
             for s2 in voc:
@@ -773,7 +792,9 @@ def run_task(task):
             continue
         diffs, outcome, nontrivial = check_case(module, mod_syms, dialect, fmt, tu, implicit, specs)
         case = {"d": dialect, "f": fmt, "tu": tu, "implicit": implicit, "toks": list(specs)}
-        res.case((dialect, fmt, tu, implicit, specs), nontrivial=nontrivial, outcome=outcome)
+        if task.get("pie"):
+            case["pie"] = True
+        res.case((dialect, fmt, tu, implicit, bool(task.get("pie")), specs), nontrivial=nontrivial, outcome=outcome)
         if diffs:
             res.bad(case, diffs)
         elif nontrivial and L >= 3:
@@ -784,7 +805,7 @@ def run_task(task):
 def replay(case):
     dialect, fmt = case["d"], case["f"]
     T.validated(dialect)
-    module, mod_syms = T.make_module(dialect, fmt)
+    module, mod_syms = T.make_module(dialect, fmt, binary_type=("DYN",) if case.get("pie") else ("EXEC",))
     if "then" in case:
         return check_reuse(module, mod_syms, dialect, fmt, case["tu"], case["implicit"], tuple(case["toks"]), tuple(case["then"]))[0]
     diffs, _, _ = check_case(module, mod_syms, dialect, fmt, case["tu"], case["implicit"], tuple(case["toks"]))
